@@ -58,9 +58,11 @@ type Decl struct {
 	Col   int      `json:"col"`  // in characters
 	BCol  int      `json:"bcol"` // in bytes (diagnostics only)
 	Show  string   `json:"show"` // first characters of the declaration (diagnostics)
+	Form  string   `json:"form,omitempty"` // value form of an attribute / annotation
 }
 
 type fileOut struct {
+	Idx       int // index of the file in the specification
 	Name      string
 	Text      string
 	Lines     [][]item
@@ -89,7 +91,7 @@ type renderer struct {
 	keys     map[string]int
 	stmtN    map[string]int // endpoint path -> number of statements so far
 	modN     map[string]int // owner path -> number of context-bearing pattern elements so far
-	annoSeen map[string]bool
+	annoSeen map[string]bool // owner|name -> a non-empty value has been declared (later values are dropped)
 }
 
 func newRenderer(lay *common.Rng, o layoutOpts) *renderer {
@@ -363,14 +365,11 @@ func (r *renderer) attribs(as []Attr, owners []string, in *inh) []*node {
 				ih = &inhNvp{name: a.Name, d: d}
 				in.nvps = append(in.nvps, ih)
 			}
-			if a.Kind == 0 {
-				n.Last = r.tok(quote(a.Val))
-			} else {
-				var ids []*Decl
-				n.Kids, n.Last, ids = r.array(a.Items, owners, a.Name)
-				if ih != nil {
-					ih.items = ids
-				}
+			d.Form = formOf(a.Form, a.Items)
+			var ids []*Decl
+			n.Kids, n.Last, ids = r.value(a.Form, a.Val, a.Items, a.Nested, owners, a.Name)
+			if ih != nil {
+				ih.items = ids
 			}
 			out = append(out, n)
 		}
@@ -380,8 +379,54 @@ func (r *renderer) attribs(as []Attr, owners []string, in *inh) []*node {
 	return out
 }
 
+var formName = map[int]string{fDefault: "string", fNested: "nested-array", fEmptyArr: "empty-array", fEmptyStr: "empty-string", fMulti: "multiline"}
+
+func formOf(form int, items []string) string {
+	if form == fDefault && len(items) > 0 {
+		return "flat-array"
+	}
+	return formName[form]
+}
+
+// value writes the value of an attribute / annotation (all forms but the multi-line doc string)
+func (r *renderer) value(form int, val string, items []string, nested [][]string, owners []string, name string) ([]*node, int, []*Decl) {
+	switch {
+	case form == fNested:
+		var out []*node
+		r.tok("[")
+		for i, sub := range nested {
+			if i > 0 {
+				r.ogap("")
+				r.tok(",")
+				r.ogap(" ")
+			} else {
+				r.ogap("")
+			}
+			var paths []string
+			for _, o := range owners {
+				paths = append(paths, fmt.Sprintf("#|%s|%s|%d", o, name, i))
+			}
+			d := r.decl(kItem, fmt.Sprintf("item|%s|%d|%d", r.fname, len(r.lines), r.col), paths, "[")
+			n := &node{Kind: kItem, Key: d.Key, First: r.ord}
+			n.Kids, n.Last, _ = r.array(sub, owners, name, fmt.Sprintf("%d.", i))
+			out = append(out, n)
+		}
+		r.ogap("")
+		return out, r.tok("]"), nil
+	case form == fEmptyArr:
+		r.tok("[")
+		r.ogap("")
+		return nil, r.tok("]"), nil
+	case form == fEmptyStr:
+		return nil, r.tok(`""`), nil
+	case len(items) > 0:
+		return r.array(items, owners, name, "")
+	}
+	return nil, r.tok(quote(val)), nil
+}
+
 // array writes ["a", "b"]; returns item nodes and the ordinal of the closing bracket
-func (r *renderer) array(items []string, owners []string, name string) ([]*node, int, []*Decl) {
+func (r *renderer) array(items []string, owners []string, name string, prefix string) ([]*node, int, []*Decl) {
 	var out []*node
 	var ds []*Decl
 	r.tok("[")
@@ -395,7 +440,7 @@ func (r *renderer) array(items []string, owners []string, name string) ([]*node,
 		}
 		var paths []string
 		for _, o := range owners {
-			paths = append(paths, fmt.Sprintf("#|%s|%s|%d", o, name, i))
+			paths = append(paths, fmt.Sprintf("#|%s|%s|%s%d", o, name, prefix, i))
 		}
 		d := r.decl(kItem, fmt.Sprintf("item|%s|%d|%d", r.fname, len(r.lines), r.col), paths, quote(it))
 		o := r.tok(quote(it))
@@ -412,13 +457,16 @@ func (r *renderer) anno(a Anno, width int, owners []string, in *inh) *node {
 	r.begin(width)
 	n := &node{Kind: kAnno}
 	var paths []string
-	first := true
+	first := true // no non-empty value so far: this declaration's value (and items) is the one the module keeps
+	nonEmpty := !(a.Form == fEmptyArr || a.Form == fEmptyStr)
 	for _, o := range owners {
 		paths = append(paths, "@|"+o+"|"+a.Name)
 		if r.annoSeen[o+"|"+a.Name] {
 			first = false
 		}
-		r.annoSeen[o+"|"+a.Name] = true
+		if nonEmpty {
+			r.annoSeen[o+"|"+a.Name] = true
+		}
 	}
 	keyStr := fmt.Sprintf("anno|%s|%d|%d", r.fname, len(r.lines), r.col)
 	if len(owners) == 1 {
@@ -436,18 +484,29 @@ func (r *renderer) anno(a Anno, width int, owners []string, in *inh) *node {
 		ih = &inhNvp{name: a.Name, d: d}
 		in.nvps = append(in.nvps, ih)
 	}
-	if len(a.Items) == 0 {
-		n.Last = r.tok(quote(a.Val))
-	} else {
-		own := owners
-		if !first {
-			own = nil // the value of a re-declared annotation is dropped: its items are not in the module
+	d.Form = formOf(a.Form, a.Items)
+	if a.Form == fMulti {
+		// "@name =:" followed by an indented block of "| text" lines; the rule ends with the block's DEDENT
+		r.tok(":")
+		r.end(true)
+		w := r.childWidth(width)
+		for _, l := range a.Lines {
+			r.begin(w)
+			r.tok("|")
+			r.tok(" " + l)
+			r.nl()
 		}
-		var ids []*Decl
-		n.Kids, n.Last, ids = r.array(a.Items, own, a.Name)
-		if ih != nil {
-			ih.items = ids
-		}
+		r.closeBody(n)
+		return n
+	}
+	own := owners
+	if !first {
+		own = nil // the value of a re-declared annotation is dropped: its items are not in the module
+	}
+	var ids []*Decl
+	n.Kids, n.Last, ids = r.value(a.Form, a.Val, a.Items, a.Nested, own, a.Name)
+	if ih != nil {
+		ih.items = ids
 	}
 	r.end(false)
 	return n
@@ -854,6 +913,7 @@ func processingOrder(s Spec) []int {
 }
 
 type Rendered struct {
+	Graph [][]int   // imports of every file of the specification, in textual order
 	Files []fileOut // in processing order
 	Decls []*Decl   // in declaration (processing) order
 	NKeys int
@@ -879,7 +939,12 @@ func render(s Spec, lay *common.Rng, o layoutOpts) Rendered {
 		for _, b := range f.Blocks {
 			forest = append(forest, r.block(b))
 		}
-		out.Files = append(out.Files, r.finishFile(forest))
+		fo := r.finishFile(forest)
+		fo.Idx = fi
+		out.Files = append(out.Files, fo)
+	}
+	for _, f := range s.Files {
+		out.Graph = append(out.Graph, append([]int{}, f.ImpIdx...))
 	}
 	out.Decls = r.decls
 	out.NKeys = len(r.keys)
